@@ -11,6 +11,7 @@ import (
 	"path/filepath"
 	"strings"
 	"sync"
+	"sync/atomic"
 	"time"
 )
 
@@ -43,6 +44,7 @@ var solvers = []solverSpec{
 var cacheDir = "/verif/.cache"
 var useCache = true
 var cacheMu sync.Mutex
+var fileCtr int64
 
 func cachePath(h string) string { return filepath.Join(cacheDir, h[:2], h) }
 
@@ -71,7 +73,7 @@ func runSolver(ctx context.Context, sp solverSpec, timeout time.Duration, file s
 }
 
 // Solve races the installed solvers on one query.
-func Solve(query string, timeout time.Duration, scratch string) SolveResult {
+func Solve(query string, timeout time.Duration, scratch string, single bool) SolveResult {
 	sum := sha256.Sum256([]byte(query))
 	h := hex.EncodeToString(sum[:])
 	if useCache {
@@ -82,7 +84,7 @@ func Solve(query string, timeout time.Duration, scratch string) SolveResult {
 			}
 		}
 	}
-	file := filepath.Join(scratch, h[:16]+".smt2")
+	file := filepath.Join(scratch, fmt.Sprintf("%s-%d-%d.smt2", h[:16], os.Getpid(), atomic.AddInt64(&fileCtr, 1)))
 	if err := os.WriteFile(file, []byte(query), 0o644); err != nil {
 		return SolveResult{Answer: "error", Output: err.Error()}
 	}
@@ -95,7 +97,7 @@ func Solve(query string, timeout time.Duration, scratch string) SolveResult {
 	}
 	ans, out := runSolver(context.Background(), solvers[0], stage1, file)
 	res := SolveResult{Answer: ans, Solver: solvers[0].name, Output: out}
-	if ans != "sat" && ans != "unsat" {
+	if ans != "sat" && ans != "unsat" && !single {
 		// stage 2: race all
 		ctx, cancel := context.WithCancel(context.Background())
 		type r struct {
